@@ -30,7 +30,8 @@ def build_case(pts, soma, bf, k, ex, sort, dtype, api, unit=1.0):
 
 
 def lib_vid(c):
-    return c.get("vid", c["cid"])
+    from harness import lib as _lib
+    return _lib.vid(c)
 
 
 def execute(c):
